@@ -76,4 +76,16 @@ def rowCountSpec (long : Bool) (t : List Cell) (n : Nat) : Bool :=
 /-- array frame / matrix round trips: same cells, numbers as floats -/
 def backSpec (t out : List Cell) : Bool := sameNumeric out t
 
+/-- what the group-by key of a data-frame reader has to contain so that it determines a row's
+coordinates and its full slice metadata (`$name` = the reader's local column list) -/
+def requiredKeys : List String :=
+  ["period_start", "period_end", "evaluation_date", "risk_basis", "country", "currency",
+   "reinsurance_basis", "loss_definition", "per_occurrence_limit", "$detail_cols", "$loss_detail_cols"]
+
+/-- the GENERATED key list of reader `fn` contains every required key -/
+def keysCover (fn : String) : Bool :=
+  match Generated.Frame.groupByKeys.find? (·.1 == fn) with
+  | some (_, ks) => requiredKeys.all ks.contains
+  | none => false
+
 end Bermuda.Spec.C14
